@@ -49,6 +49,16 @@ def gen(tier, seed):
 
     def add(x, chain, why):
         cases.append({"x": x, "chain": chain, "why": why})
+    # every Unicode whitespace character (and near misses) at either end and in the middle
+    for c in sorted(WS) + ["\u200b", "\ufeff", "\u180e", "\x1f", "\x00"]:
+        for s in (c, c + "a", "a" + c, c + "a" + c, " " + c + "a" + c + " ", "a" + c + "b", c + c):
+            for f in ("strip", "lstrip", "rstrip", "strip_newlines", "capitalize", "size", "first", "last", "upcase", "newline_to_br"):
+                add(S_(s), [(f, [])], "unicode-whitespace")
+            add(S_(s), [("rstrip", []), ("lstrip", [])], "unicode-whitespace")
+            add(S_(s), [("split", [S_(" ")])], "unicode-whitespace")
+            add(S_(s), [("split", [S_(c)]), ("join", [S_(c)])], "unicode-whitespace")
+            add(S_(s), [("truncatewords", [I_(1)])], "unicode-whitespace")
+            add(S_(s), [("truncate", [I_(2), S_(c)])], "unicode-whitespace")
     for s in ss:
         for f in ("upcase", "downcase", "capitalize", "strip", "lstrip", "rstrip", "strip_newlines", "size", "first", "last", "newline_to_br"):
             add(S_(s), [(f, [])], "unary")
